@@ -197,6 +197,17 @@ class MustFacts:
     def at(self, n: Node) -> frozenset:
         return self.inn.get(n.id, frozenset())
 
+    def along(self, n: Node, label: str) -> frozenset:
+        """Facts that hold along the out-edge (n, label): facts at n that survive n's writes, plus the edge's own facts."""
+        base = self.at(n)
+        kill = assigned_names(n)
+        if kill:
+            base = frozenset(cl for cl in base if not (clause_names(cl) & kill))
+        paths = written_paths(n)
+        if paths:
+            base = frozenset(cl for cl in base if not any(_mentions(t, pth) for (t, _p) in cl for pth in paths))
+        return base | frozenset(edge_facts(n, label))
+
     def holds(self, n: Node, pred) -> Optional[frozenset]:
         """First clause at node n all of whose literals satisfy pred(text, polarity)."""
         for cl in sorted(self.at(n), key=lambda c: sorted(c)):
